@@ -332,7 +332,7 @@ func npmDef() sysDef {
 		},
 		targets: []string{"a", "b", "c"},
 		reqs:    NPMReqs,
-		decor:   []string{"opt", "dev", "peer", "bundle", "alias"},
+		decor:   []string{"opt", "dev", "peer", "bundle", "alias", "alias-c"},
 		apply: func(r *Req, d string) {
 			switch d {
 			case "opt":
@@ -345,6 +345,8 @@ func npmDef() sysDef {
 				r.Scope = "bundle"
 			case "alias":
 				r.Alias = "x"
+			case "alias-c":
+				r.Alias = "c" // the alias spells the name of a real package
 			}
 		},
 		// package.json keys are unique: one version cannot declare two dependencies under one alias, nor an alias
@@ -358,6 +360,12 @@ func npmDef() sysDef {
 					if r.Alias != "" {
 						n++
 						k = r.Alias
+						if r.Alias == v.Pkg {
+							// a package that installs something else under its own name: the nested folder shadows
+							// the package itself and installation recurses without end (npm has no loop breaking
+							// for it either); outside the domain, recorded in DESIGN 9.2
+							return false
+						}
 					}
 					if keys[k] {
 						return false
@@ -404,9 +412,36 @@ func npmZeroDef() sysDef {
 	return d
 }
 
+// npmAliasDef is a four-package alphabet for aliases that spell a real package name: m reuses the root's alias c
+// (which installs x), a conflict on d nests d@2 under m, and d@2 needs the real c.
+func npmAliasDef() sysDef {
+	d := npmDef()
+	d.vers = []Ver{
+		{Pkg: "r", Ver: "1.0.0", Tags: "latest"},
+		{Pkg: "m", Ver: "1.0.0", Tags: "latest"},
+		{Pkg: "x", Ver: "1.0.0", Tags: "latest"},
+		{Pkg: "d", Ver: "1.0.0"}, {Pkg: "d", Ver: "2.0.0", Tags: "latest"},
+		{Pkg: "c", Ver: "1.0.0"}, {Pkg: "c", Ver: "2.0.0", Tags: "latest"},
+	}
+	d.targets = []string{"m", "x", "d", "c"}
+	d.reqs = []string{"^1.0.0", "^2.0.0", "*", "1.0.0"}
+	d.decor = []string{"opt", "alias-c"}
+	return d
+}
+
 // NPMSpaces returns the npm families of DESIGN §6.6(a): the empty base, a diamond-with-conflict template that
 // forces nested installs, and the zero-major / twin-spelling template.
 func NPMSpaces() []*Space {
+	al := npmAliasDef()
+	ai := func(p, v string) int { return verIndex(al.vers, p, v) }
+	aliasT := []tmplReq{
+		{ai("r", "1.0.0"), Req{Pkg: "m", Ver: "^1.0.0"}},
+		{ai("r", "1.0.0"), Req{Pkg: "x", Ver: "^1.0.0", Alias: "c"}},
+		{ai("r", "1.0.0"), Req{Pkg: "d", Ver: "1.0.0"}},
+		{ai("m", "1.0.0"), Req{Pkg: "x", Ver: "^1.0.0", Alias: "c"}},
+		{ai("m", "1.0.0"), Req{Pkg: "d", Ver: "^2.0.0"}},
+		{ai("d", "2.0.0"), Req{Pkg: "c", Ver: "^2.0.0"}},
+	}
 	z := npmZeroDef()
 	zi := func(p, v string) int { return verIndex(z.vers, p, v) }
 	zero := []tmplReq{
@@ -424,7 +459,7 @@ func NPMSpaces() []*Space {
 		{vi("b", "1.0.0"), Req{Pkg: "c", Ver: "^2.0.0"}},
 		{vi("c", "2.0.0"), Req{Pkg: "a", Ver: "^2.0.0"}},
 	}
-	return []*Space{newSpace(d, "empty", nil), newSpace(d, "diamond", diamond), newSpace(z, "zero", zero)}
+	return []*Space{newSpace(d, "empty", nil), newSpace(d, "diamond", diamond), newSpace(z, "zero", zero), newSpace(al, "alias-name", aliasT)}
 }
 
 // ---------------- Maven ----------------
